@@ -78,10 +78,19 @@ func buildC16(tier string, seed int64) *Family {
 	for _, x := range []string{"matches(a, string(@a))", "matches('1x1', string(a))", "replace(a, @a, 'y')", "replace('1x1', a, '[$0]')", "replace(a, '(1)', '$1$1')", "matches(*, '1$')",
 		// group references with patterns of 0, 1 and 2 groups on concrete subjects
 		"replace('abc', 'b', '[$0]')", "replace('aXbX', 'X', '$0$0')", "replace(a, '1', '<$0>')", "replace('abc', '(b)', '[$1$0]')", "replace('abcd', '(b)(c)', '$2$1')", "replace(a, 'x|1', '$0$0')",
-		"replace('abc', 'b', 'a$1c')", "replace('abc', '', '-')"} {
+		"replace('abc', 'b', 'a$1c')", "replace('abc', '', '-')", "replace('abc', 'b', '[$0x]')", "replace('2024-05', '[0-9]+', '$0_')", "replace('abc', '(b)', '$1x$0y')"} {
 		in := valueInst(x, rcfg)
 		in.ID = "regexp over nodes: " + in.ID
 		insts = append(insts, in)
+	}
+	// an evaluation that aborts (pattern known only at run time does not compile) before the one checked
+	for _, x := range []string{"matches('ab', concat('^a', 'b$'))", "replace('ab', concat('a', ''), concat('x', 'y'))", "matches(a, concat('^', '1'))", "concat('p', replace('aa', 'a', concat('b', '')))"} {
+		for _, pre := range []string{"concat('zz', replace('x', concat('[', ''), 'y'))", "concat('zz', 'y', matches('x', concat('(', '')))", "normalize-space(concat(' q ', matches('x', concat('[', ''))))"} {
+			in := valueInst(x, rcfg)
+			in.ID = "after an aborted evaluation: " + pre + " ; " + in.ID
+			in.Params["prelude"] = pre
+			insts = append(insts, in)
+		}
 	}
 	can := &vm.Instance{ID: "canary cache with a loader returning a foreign value", Harness: "H_cache", Params: map[string]string{"canary": "1"}}
 	return &Family{
